@@ -496,14 +496,24 @@ def _run_case(env: Env, case: dict[str, Any], scratch: str, want_trace: bool) ->
     # file alone (the whole-run baseline may stop early at a file that fails, and a fault may make
     # discovery skip that file - the files after it then legitimately get formatted)
     new2: dict[str, bytes | None] = dict(new)
+    early_violations: list[tuple[str, dict[str, Any], dict[str, Any]]] = []
     if case["inplace"]:
         for rel in list(ex0.docs):
             solo = _solo_case(case, rel)
             if solo is None:
                 continue
-            exs, _ = _exec_once(solo, scratch, [], {"listing": "native"}, None)
+            exs, res_s = _exec_once(solo, scratch, [], {"listing": "native"}, None)
             got = simproc.read_bytes(os.path.join(exs.root, rel))
             new[rel] = got
+            if res_s.exit != 0 and "f" in case["tree"][rel]:
+                # "If reading, decoding or formatting fails nothing is modified" - fault-free form
+                before = {r: (e["f"] if "f" in e else e) for r, e in exs.tree.items()}
+                after_t = {r: (ent[1] if ent[0] == "f" else {"l": ent[1]} if ent[0] == "l" else {"d": 1}) for r, ent in simproc.snapshot(exs.root).items() if ent[0] != "d"}
+                before_t = {r: v for r, v in before.items() if not (isinstance(v, dict) and "d" in v)}
+                before_t = {r: (simproc.read_bytes(os.path.join(exs.root, v["hl"])) if isinstance(v, dict) and "hl" in v else v) for r, v in before_t.items()}
+                if after_t != before_t:
+                    diffp = sorted(r for r in set(after_t) | set(before_t) if after_t.get(r) != before_t.get(r))
+                    early_violations.append((f"C14/failed-format-modified-tree/{'inplace+backup' if case['backup'] else 'inplace'}", solo, {"why": "the invocation failed (exit != 0) on this file alone, yet the tree changed", "exit": res_s.exit, "changed_paths": diffp[:5], "stderr": res_s.stderr[-200:].decode("utf-8", "replace")}))
             # and what a re-run on that result must produce
             solo2 = dict(solo, tree={**solo["tree"], rel: {"f": b2j(got)}}) if got is not None and "f" in case["tree"][rel] else solo
             exs2, _ = _exec_once(solo2, scratch, [], {"listing": "native"}, None)
@@ -531,6 +541,11 @@ def _run_case(env: Env, case: dict[str, Any], scratch: str, want_trace: bool) ->
         seen_fp.add(fp)
         violations.append({"fingerprint": fp, "detail": detail, "case": dict(case, faults=faults, knobs=knobs)})
 
+    for fp_e, solo_case, det in early_violations:
+        if fp_e not in seen_fp:
+            seen_fp.add(fp_e)
+            violations.append({"fingerprint": fp_e, "detail": det, "case": dict(solo_case, faults=[], knobs={"listing": "native"})})
+
     def one(faults: list[dict[str, Any]], knobs: dict[str, Any], strict: bool) -> None:
         nonlocal n_exec, n_fired, n_obs
         ex, res = _exec_once(case, scratch, faults, knobs, new)
@@ -552,6 +567,26 @@ def _run_case(env: Env, case: dict[str, Any], scratch: str, want_trace: bool) ->
         if ex.violation is not None:
             record_violation(f"C14/{ex.violation['kind']}/{mode_cls}", faults, knobs, {"violation": ex.violation, "fired": fired, "exit": res.exit})
             return
+        # "If reading ... fails nothing is modified": every fired fault is a read-side error on one
+        # document -> that document keeps inode and bytes, and its .orig is neither created nor changed
+        rd = [f for f in fired if f["kind"] == "errno" and f["op"] in ("open-r", "read", "close-r") and f["paths"] and f["paths"][0] in ex.docs]
+        if fired and len(rd) == len(fired) and len({f["paths"][0] for f in rd}) == 1 and not any(f.get("sticky") for f in faults) and not any(
+            o.op in simproc.MUTATING and o.k < rd[0]["at"] and any(pth.startswith(rd[0]["paths"][0]) for pth in o.paths) for o in ex.ip.log
+        ):
+            # (only when the failing read comes before anything was written for that document: a
+            # read-back after a completed write is a different matter)
+            relp = rd[0]["paths"][0]
+            full = os.path.join(ex.root, relp)
+            old_b, ino0 = ex.docs[relp]
+            try:
+                ino_now = simproc._REAL["lstat"](full).st_ino
+            except OSError:
+                ino_now = None
+            orig_before = ex.tree.get(relp + ".orig", {}).get("f") if relp + ".orig" in ex.tree else None
+            orig_now = simproc.read_bytes(full + ".orig")
+            if simproc.read_bytes(full) != old_b or ino_now != ino0 or orig_now != orig_before:
+                record_violation(f"C14/read-failure-modified/{mode_cls}", faults, knobs, {"path": relp, "content_same": simproc.read_bytes(full) == old_b, "inode_same": ino_now == ino0, "orig_before": b2j(orig_before), "orig_now": b2j(orig_now), "fired": fired})
+                return
         if strict:
             # legal behaviour of the environment only: the run must be indistinguishable from the baseline
             tree_now = simproc.snapshot(ex.root)
